@@ -460,6 +460,10 @@ func c11GenChain(c *fw.Case, w *c11World, prefix string, nids int) *c11Node {
 }
 
 func runC11(c *fw.Case) {
+	if desyncBin() != "" && c.Chance(1, procRate(400), "c11.proc") {
+		runC11Proc(c)
+		return
+	}
 	nids := c.Range(2, 4, "ids")
 	w := &c11World{c: c}
 	for i := 0; i < nids; i++ {
